@@ -31,6 +31,11 @@ Mirrors
     tagsTreeFile     pkg/segment/writer/metrics/tagstree.go GetFinalTagsTreeDir     metrics.EncodeDatapoint rejects the datapoint unless every
                      + getTagsTreeFileName  (ttBase ++ key)                         tag key passes utils.IsSimpleFileName (fix)
 
+    tagsTreeRead     pkg/segment/reader/metrics/tagstree/tagstreereader.go           READ side of the same files: the tag key of a tag filter
+                     tagTreeFileExists / initTagsTreeReader (baseDir ++ tagKey)     of a metrics QUERY (OpenTSDB m={k=v}, query expressions
+                                                                                    `tagk`, …) against a rotated segment; both functions
+                                                                                    refuse a key unless utils.IsSimpleFileName (repair c19-2)
+
   utils.IsSimpleFileName(name) = name ∉ {"", ".", ".."} and no '/' and no '\\' in name   →  `simpleName`.
   The definitions `…Old` are the builders as they were BEFORE the fix: commits (kept for the counterexample theorems).
     dashboardDetails pkg/dashboards/dashboards.go getDashboardDetailsPath:54-59     route param {dashboard-id} (get/favorite/delete);
@@ -237,6 +242,15 @@ def tagsTreeFileOld (d : List Seg) (H : Seg) (v : Str) : Option NPath :=
 
 def tagsTreeFile (d : List Seg) (H : Seg) (v : Str) : Option NPath :=
   if simpleName v then tagsTreeFileOld d H v else none
+
+/-- the READER of the tags tree (tagstreereader.go tagTreeFileExists: os.Stat, initTagsTreeReader: os.OpenFile + flock + ReadAt):
+    baseDir ++ tagKey with baseDir = the tags tree directory of a rotated segment (same string as the writer's) and tagKey =
+    the key of a tag filter of a QUERY.  BEFORE the repair: no check at all (the empty key names the directory itself). -/
+def tagsTreeReadOld (d : List Seg) (H : Seg) (v : Str) : Option NPath := tagsTreeFileOld d H v
+
+/-- as repaired: both functions answer "no such tags tree" for a key that is not utils.IsSimpleFileName -/
+def tagsTreeRead (d : List Seg) (H : Seg) (v : Str) : Option NPath :=
+  if simpleName v then tagsTreeReadOld d H v else none
 
 /-- dataPath ++ "querynodes/" ++ hostID ++ "/dashboards/details/" ++ id ++ ".json" -/
 def dashboardDetails (d : List Seg) (H : Seg) (v : Str) : Option NPath :=
